@@ -12,6 +12,7 @@ import DDProofs.LexProofs
 import DDProofs.ToExprProofs
 import DDProofs.ParseSem
 import DDProofs.VarsProofs
+import DDProofs.VarsBijOrder
 import DDProofs.Witness
 import DDProofs.Inv
 open Std
@@ -312,11 +313,8 @@ example : (match addExpr "@1 /\\ ~ @-1" ({} : Mgr) with | (.ok 1, _) => true | _
 
 /-! ## the semantic half: `add_expr` returns the documented meaning -/
 
-/-- the order invariant of reachable managers (`C14`) is the bijection the substitution
-theorems are stated with -/
-theorem VarsBij.ofOrderOK {t : Tbl} (h : OrderOK t) : VarsBij t :=
-  ⟨fun v i hv => (h.inv v i).mp hv, fun i v hl => (h.inv v i).mpr hl, h.lt,
-   fun i hi => by obtain ⟨v, hv⟩ := h.total i hi; exact ⟨v, (h.inv v i).mpr hv⟩⟩
+/-! (`VarsBij.ofOrderOK` — the order invariant of reachable managers (`C14`) is the bijection
+the substitution theorems are stated with — is in `DDProofs/VarsBijOrder.lean`) -/
 
 /-- C05 (meaning of a formula): in a manager that satisfies the invariant, with reordering not
 enabled, for every text `s` that the front end reads as the tree `t` (`parse (tokenize s) = some t`,
@@ -376,21 +374,31 @@ example : ∃ (m : Mgr) (u : Int) (d : String), Inv m ∧ m.lastLen = none ∧ V
     simp only [Meaningful, e]
     exact mem_one _
 
-/-! ## `to_expr` round trip -/
+/-! ## `to_expr` round trip
+
+`dd` accepts any string as a variable name and `to_expr` prints names verbatim, so the text of
+a diagram that mentions a variable called `TRUE`, `ite`, `x-y`, … is not read back as that
+variable (finding F13).  That is the ONLY excluded case: the hypothesis `lexableSupport`
+constrains the names of the variables in the SUPPORT of `u` (= the names that `to_expr(u)`
+prints); the manager may declare other variables with any name (`witnessT`: a manager that
+declares `TRUE` next to `x` round-trips `x`). -/
 
 /-- every variable name of the manager is a NAME token and not a reserved word
-(`dd` accepts any string as a variable name; `to_expr` texts of other names do not parse) -/
+(stronger than needed: see `lexableSupport`) -/
 def lexableNames (tb : Tbl) : Prop :=
   ∀ (lvl : Nat) (v : String), tb.l2v[lvl]? = some v → nameOk v
+
+theorem lexableNames.support {tb : Tbl} (h : lexableNames tb) (u : Int) : lexableSupport tb u :=
+  fun _ _ lvl _ v hv => h lvl v hv
 
 /-- the text written by `to_expr` is the text of the syntax
 tree `a` that unfolds the diagram below `u` — `ite(var, high, low)`, the variable itself for
 `ite(var, TRUE, FALSE)`, `(~ …)` for a complemented reference; the memo table of `_to_expr`
 only shares texts — -/
-theorem C05_toExpr_text (tb : Tbl) (hn : lexableNames tb) (u : Int) (s : String)
-    (h : toExpr tb u = .ok s) :
+theorem C05_toExpr_text (tb : Tbl) (hw : WFU tb) (u : Int) (hu : tb.Mem u)
+    (hn : lexableSupport tb u) (s : String) (h : toExpr tb u = .ok s) :
     ∃ f a, toExprAstF f tb u = .ok a ∧ TE a ∧ s = teStr a :=
-  toExpr_spec tb hn u s h
+  toExpr_spec tb u (namesBelow_of_support hw hu hn) s h
 
 /-- … the lexer reads that text as the tokens of `a` with parentheses around negations … -/
 theorem C05_tokenize_toExpr_text (a : Ast) (h : TE a) : tokenize (teStr a) = printG isNot a :=
@@ -398,11 +406,11 @@ theorem C05_tokenize_toExpr_text (a : Ast) (h : TE a) : tokenize (teStr a) = pri
 
 /-- … and `add_expr` on it is the evaluation of that tree: `add_expr(to_expr(u))`
 evaluates, bottom-up, the `ite(var, high, low)` unfolding of `u` -/
-theorem C05_addExpr_toExpr_partial (m : Mgr) (hn : lexableNames m.tbl) (u : Int) (s : String)
-    (h : toExpr m.tbl u = .ok s) :
+theorem C05_addExpr_toExpr_partial (m : Mgr) (hw : WFU m.tbl) (u : Int) (hu : m.tbl.Mem u)
+    (hn : lexableSupport m.tbl u) (s : String) (h : toExpr m.tbl u = .ok s) :
     ∃ f a, toExprAstF f m.tbl u = .ok a ∧ TE a ∧ parse (tokenize s) = some a ∧
       addExpr s = tryToReorder (evalAst a) := by
-  obtain ⟨f, a, ha, hte, hp⟩ := parse_toExpr m.tbl hn u s h
+  obtain ⟨f, a, ha, hte, hp⟩ := parse_toExpr m.tbl u (namesBelow_of_support hw hu hn) s h
   refine ⟨f, a, ha, hte, hp, ?_⟩
   unfold addExpr
   congr 1
@@ -415,35 +423,134 @@ theorem C05_addExpr_toExpr_partial (m : Mgr) (hn : lexableNames m.tbl) (u : Int)
     rw [ht']
   · simp at hp
 
-/-- C05 (round trip): in a manager that satisfies the invariant, with reordering not enabled and
-variable names that are NAME tokens and not reserved words, `add_expr(to_expr(u))` is `u` again,
-for every reference `u` of the manager (either sign); the manager keeps its invariant and only
-gains nodes.  (The printed `ite(var, high, low)` unfolding denotes the function of `u`
-— `toExprAst_sem` — and equal functions are equal references — `canonical`.) -/
+/-- C05 (round trip): in a manager that satisfies the invariant, with reordering not enabled,
+`add_expr(to_expr(u))` is `u` again, for every reference `u` of the manager (either sign) whose
+SUPPORT consists of variables named by NAME tokens that are not reserved words (`lexableSupport`;
+the other declared variables may have any name; F13 is exactly the excluded case); the manager
+keeps its invariant and only gains nodes.  (The printed `ite(var, high, low)` unfolding denotes
+the function of `u` — `toExprAst_sem` — and equal functions are equal references —
+`canonical`.) -/
 theorem C05_addExpr_toExpr (m : Mgr) (hI : Inv m) (hoff : m.lastLen = none) (hO : OrderOK m.tbl)
-    (hn : lexableNames m.tbl) (u : Int) (hu : m.tbl.Mem u) :
+    (u : Int) (hu : m.tbl.Mem u) (hn : lexableSupport m.tbl u) :
     ∃ s m', toExpr m.tbl u = .ok s ∧ addExpr s m = (.ok u, m') ∧ Inv m' ∧ Ext m.tbl m'.tbl := by
   obtain ⟨s, hs⟩ := toExpr_total m.tbl hI.wf.toWF (VarsBij.ofOrderOK hO) u hu
-  obtain ⟨m', he, hst⟩ := addExpr_toExpr m hI hoff (VarsBij.ofOrderOK hO) hn u hu s hs
+  obtain ⟨m', he, hst⟩ := addExpr_toExpr m hI hoff (VarsBij.ofOrderOK hO) u
+    (namesBelow_of_support hI.wf hu hn) hu s hs
   exact ⟨s, m', hs, he, hst.inv, hst.ext⟩
 
 /-- the same for whatever text `to_expr` returned -/
 theorem C05_addExpr_toExpr_of_text (m : Mgr) (hI : Inv m) (hoff : m.lastLen = none)
-    (hO : OrderOK m.tbl) (hn : lexableNames m.tbl) (u : Int) (hu : m.tbl.Mem u) (s : String)
+    (hO : OrderOK m.tbl) (u : Int) (hu : m.tbl.Mem u) (hn : lexableSupport m.tbl u) (s : String)
     (h : toExpr m.tbl u = .ok s) :
     ∃ m', addExpr s m = (.ok u, m') ∧ Inv m' ∧ Ext m.tbl m'.tbl := by
-  obtain ⟨m', he, hst⟩ := addExpr_toExpr m hI hoff (VarsBij.ofOrderOK hO) hn u hu s h
+  obtain ⟨m', he, hst⟩ := addExpr_toExpr m hI hoff (VarsBij.ofOrderOK hO) u
+    (namesBelow_of_support hI.wf hu hn) hu s h
   exact ⟨m', he, hst.inv, hst.ext⟩
 
-/-- non-vacuity: the witness manager (variable `x`, a NAME) meets the hypotheses -/
-example : ∃ (m : Mgr) (u : Int), Inv m ∧ m.lastLen = none ∧ VarsBij m.tbl ∧ m.tbl.Mem u ∧
-    u.natAbs ≠ 1 := by
-  obtain ⟨m, u, hI, hoff, hV, hu, _, _, hd, _⟩ := witness
-  refine ⟨m, u, hI, hoff, hV, hu, ?_⟩
-  intro h1
-  rcases abs_one h1 with h | h <;> subst h
-  · have := hd (fun _ => false); rw [den_one] at this; cases this
-  · have := hd (fun _ => true); rw [den_neg_one] at this; cases this
+/-- the earlier (stronger) hypothesis: every declared name lexable -/
+theorem C05_addExpr_toExpr_allNames (m : Mgr) (hI : Inv m) (hoff : m.lastLen = none)
+    (hO : OrderOK m.tbl) (hn : lexableNames m.tbl) (u : Int) (hu : m.tbl.Mem u) :
+    ∃ s m', toExpr m.tbl u = .ok s ∧ addExpr s m = (.ok u, m') ∧ Inv m' ∧ Ext m.tbl m'.tbl :=
+  C05_addExpr_toExpr m hI hoff hO u hu (hn.support u)
+
+/-! ### non-vacuity, exhibiting the hypothesis: a manager that declares `x` (level 0) and a
+variable called `TRUE` (level 1; a reserved word, so `lexableNames` FAILS) and holds the node of
+`x`, whose support is `{x}` -/
+
+def witT0 : Mgr :=
+  { tbl := { vars := (({} : TreeMap String Nat).insert "x" 0).insert "TRUE" 1,
+             l2v := (({} : TreeMap Nat String).insert 0 "x").insert 1 "TRUE" } }
+
+theorem witT0_nvars : witT0.tbl.nvars = 2 := by
+  simp [witT0, Tbl.nvars, TreeMap.size_insert]
+
+theorem witT0_inv : Inv witT0 := by
+  refine ⟨⟨⟨?_, ?_, ?_, ?_, ?_, ?_, ?_, ?_⟩, ?_⟩, ?_, ?_, ?_, ?_, ?_, ?_⟩ <;>
+    simp [witT0, Tbl.node?] <;> try decide
+
+theorem witT0_vars (v : String) (i : Nat) :
+    witT0.tbl.vars[v]? = some i ↔ (v = "x" ∧ i = 0) ∨ (v = "TRUE" ∧ i = 1) := by
+  simp only [witT0, TreeMap.getElem?_insert]
+  by_cases h1 : v = "TRUE"
+  · subst h1; simp; omega
+  · by_cases h2 : v = "x"
+    · subst h2; simp; omega
+    · have e1 : ¬ ("TRUE" = v) := fun e => h1 e.symm
+      have e2 : ¬ ("x" = v) := fun e => h2 e.symm
+      simp [h1, h2, e1, e2]
+
+theorem witT0_l2v (i : Nat) (v : String) :
+    witT0.tbl.l2v[i]? = some v ↔ (v = "x" ∧ i = 0) ∨ (v = "TRUE" ∧ i = 1) := by
+  simp only [witT0, TreeMap.getElem?_insert]
+  by_cases h1 : i = 1
+  · subst h1; simp; exact eq_comm
+  · by_cases h2 : i = 0
+    · subst h2; simp; exact eq_comm
+    · have e1 : ¬ (1 = i) := fun e => h1 e.symm
+      have e2 : ¬ (0 = i) := fun e => h2 e.symm
+      simp [h1, h2, e1, e2]
+
+theorem witT0_order : OrderOK witT0.tbl := by
+  refine ⟨fun v i => by rw [witT0_vars, witT0_l2v], ?_, ?_⟩
+  · intro v i h
+    rw [witT0_nvars]
+    rcases (witT0_vars v i).mp h with ⟨-, rfl⟩ | ⟨-, rfl⟩ <;> omega
+  · intro i hi
+    rw [witT0_nvars] at hi
+    rcases i with _ | _ | i
+    · exact ⟨"x", (witT0_l2v _ _).mpr (Or.inl ⟨rfl, rfl⟩)⟩
+    · exact ⟨"TRUE", (witT0_l2v _ _).mpr (Or.inr ⟨rfl, rfl⟩)⟩
+    · omega
+
+/-- a state that meets every hypothesis of `C05_addExpr_toExpr` for the node `u` of `x`, although
+the manager declares a variable (`TRUE`) whose name is not lexable -/
+theorem witnessT :
+    ∃ (m : Mgr) (u : Int), Inv m ∧ m.lastLen = none ∧ OrderOK m.tbl ∧ m.tbl.Mem u ∧
+      u.natAbs ≠ 1 ∧ lexableSupport m.tbl u ∧ ¬ lexableNames m.tbl ∧
+      m.tbl.l2v[1]? = some "TRUE" := by
+  obtain ⟨g, m', _, hs, hg, _, hd⟩ := varNode_off witT0 witT0_inv rfl 0
+    (by show 0 < witT0.tbl.nvars; rw [witT0_nvars]; decide)
+  have hg1 : g.natAbs ≠ 1 := by
+    intro h1
+    rcases abs_one h1 with h | h <;> subst h
+    · have := hd (fun _ => false); rw [den_one] at this; cases this
+    · have := hd (fun _ => true); rw [den_neg_one] at this; cases this
+  have hO : OrderOK m'.tbl := by
+    have hv := hs.frame.vars
+    have hl := hs.frame.l2v
+    have hn : m'.tbl.nvars = witT0.tbl.nvars := by simp [Tbl.nvars, hv]
+    exact ⟨fun v i => by rw [hv, hl]; exact witT0_order.inv v i,
+      fun v i h => by rw [hn]; rw [hv] at h; exact witT0_order.lt v i h,
+      fun i hi => by rw [hl]; rw [hn] at hi; exact witT0_order.total i hi⟩
+  have hT : m'.tbl.l2v[1]? = some "TRUE" := by
+    rw [hs.frame.l2v]; exact (witT0_l2v _ _).mpr (Or.inr ⟨rfl, rfl⟩)
+  refine ⟨m', g, hs.inv, hs.off rfl, hO, hg, hg1, ?_, ?_, hT⟩
+  · -- the support of `g` is level 0, named `x`
+    intro ls hls lvl hlvl v hv
+    obtain ⟨l, e, _, sp⟩ := supportLevels_spec' hs.inv.wf g hg
+    rw [e] at hls
+    cases hls
+    obtain ⟨a, ha⟩ := (sp lvl).mp hlvl
+    have h0 : lvl = 0 := by
+      by_cases h : lvl = 0
+      · exact h
+      · exfalso; apply ha
+        rw [hd, hd]
+        simp [upd, Ne.symm h]
+    subst h0
+    rw [hs.frame.l2v] at hv
+    rcases (witT0_l2v _ _).mp hv with ⟨rfl, -⟩ | ⟨-, h⟩
+    · exact nameOk_of_check (by decide)
+    · cases h
+  · intro hall
+    exact absurd (hall 1 "TRUE" hT).2 (by decide)
+
+/-- … so the round trip holds there: `add_expr(to_expr(u)) = u` in a manager declaring `TRUE` -/
+example : ∃ (m : Mgr) (u : Int) (s : String) (m' : Mgr), ¬ lexableNames m.tbl ∧ u.natAbs ≠ 1 ∧
+    toExpr m.tbl u = .ok s ∧ addExpr s m = (.ok u, m') := by
+  obtain ⟨m, u, hI, hoff, hO, hu, h1, hn, hnot, -⟩ := witnessT
+  obtain ⟨s, m', hs, he, -, -⟩ := C05_addExpr_toExpr m hI hoff hO u hu hn
+  exact ⟨m, u, s, m', hnot, h1, hs, he⟩
 
 /-- non-vacuity: a table with one variable and one node; a tree of the image of `to_expr` -/
 def exTblC05 : Tbl :=
